@@ -118,9 +118,24 @@ func worldC05(w *World) {
 	}
 	D := bound(0)
 	w.K.MaxSteps = 3000000
+	// swarm: the handler chain the response passes through, and the backend's framing
+	var agentArgs []string
+	sessions := t.Rare(1, 3, "sessions")
+	banner := t.Rare(1, 3, "banner")
+	shim := t.Rare(1, 4, "shim")
+	declareLength := t.Rare(1, 3, "content-length")
+	if sessions {
+		agentArgs = append(agentArgs, "-session-cookie-name=psess")
+	}
+	if banner {
+		agentArgs = append(agentArgs, "-inject-banner=<b>banner</b>")
+	}
+	if shim {
+		agentArgs = append(agentArgs, "-shim-websockets", "-shim-path=shim")
+	}
 	fp := NewFakeProxy(w)
 	id := "stream1"
-	fp.AddRequest(id, serialiseRequest("GET", "/stream", "example.test", http.Header{}, nil), "")
+	fp.AddRequest(id, serialiseRequest("GET", "/stream", "example.test", http.Header{"Accept": {"text/html,*/*"}}, nil), "")
 	listed := false
 	fp.OnList = func(k int, r *http.Request) (int, []byte) {
 		if !listed {
@@ -156,6 +171,9 @@ func worldC05(w *World) {
 		}
 		http.Serve(l, http.HandlerFunc(func(rw http.ResponseWriter, r *http.Request) {
 			rw.Header().Set("Content-Type", "application/octet-stream")
+			if declareLength {
+				rw.Header().Set("Content-Length", fmt.Sprint(total))
+			}
 			rw.WriteHeader(200)
 			fl := rw.(http.Flusher)
 			sent := 0
@@ -191,7 +209,7 @@ func worldC05(w *World) {
 	})
 	// the agent's client timeout bounds the whole upload; a stream that is still
 	// being produced must not run into it, so it is configured out of the way
-	startAgent(w, "-proxy-timeout=3h")
+	startAgent(w, append(agentArgs, "-proxy-timeout=3h")...)
 	w.K.Spawn("controller", func() {
 		for {
 			time.Sleep(time.Second)
@@ -205,7 +223,7 @@ func worldC05(w *World) {
 		w.K.Stop()
 	})
 	w.K.Horizon = time.Duration(n)*(bound(2<<20)+6*time.Second) + 5*time.Minute
-	w.Sample = map[string]interface{}{"chunks": chunks, "latency_ms": lat.Milliseconds(), "sendbuf": w.K.SendBuf, "bound_ms": D.Milliseconds()}
+	w.Sample = map[string]interface{}{"agent_flags": agentArgs, "content_length_declared": declareLength, "chunks": chunks, "latency_ms": lat.Milliseconds(), "sendbuf": w.K.SendBuf, "bound_ms": D.Milliseconds()}
 	w.OnCheck(func() {
 		for _, e := range w.K.Exits {
 			w.Violation("crash", "node %s exited: %s", e.Node, e.Msg)
@@ -236,6 +254,12 @@ func worldC05(w *World) {
 		}
 		if n > 1 {
 			w.Probe("lockstep_multi_chunk")
+		}
+		if sessions || banner || shim {
+			w.Probe("through_wrapped_handler_chain")
+		}
+		if declareLength && n > 1 {
+			w.Probe("declared_length_multi_chunk")
 		}
 	})
 }
